@@ -14,6 +14,7 @@ ill-typed programs, dev build with quarantine, thorough: release + safe_* + debu
 import json
 import os
 import re
+import time
 
 import yvlib
 from yvlib import hx, log
@@ -753,12 +754,13 @@ def run(ctx):
             ctx.violation(rp.get("what", "replay"), input=src, expected="Ok or Err(Error)", actual=bad, known_class=rp.get("known_class"))
         ctx.cov.update({"evaluations": 1, "distinct_nontrivial": 1, "rule": "replay of one recorded program", "samples": [src[:300]]})
         return
+    t0 = time.time()
     pool_checked = check_pool_tags(ctx, binary)
 
     # ---- (a) native pool correspondence impl == M, and oracle impl == S on the same probes ----
-    probes = gen_probes(ctx, per_right=40 if quick else 400, per_wrong=4 if quick else 40)
+    probes = gen_probes(ctx, per_right=120 if quick else 600, per_wrong=10 if quick else 60)
     model = model_outcomes(probes, "a")
-    impl = run_probe_groups(binary, probes, 16)
+    impl = run_probe_groups(binary, probes, 24)
     hist = {}
     combos = set()
     nontrivial = set()
@@ -784,6 +786,8 @@ def run(ctx):
             if mism <= 8:
                 ctx.corr_broken.append("impl != M (NativesModel.v) on %s [%s] ctx=%s: %s | snippet: %s" % (p.native, p.wire(), p.ctx, d, p.snippet(0)[:400]))
 
+    log('[C02] native probes: %d in %.1fs' % (len(probes), time.time() - t0))
+    t0 = time.time()
     # ---- receiver stream: instance receivers of classes deriving from native-object classes ----
     dprobes = gen_derived_probes(ctx, 2 if quick else 12)
     dmodel = model_outcomes(dprobes, "d")
@@ -812,6 +816,8 @@ def run(ctx):
         ctx.corr_broken.append("receiver_kind_refuted lists %d natives, the implementation panics on %d: model-only %s impl-only %s" % (
             len(model_panics), len(seen_panics), sorted(set(model_panics) - set(seen_panics)), sorted(set(seen_panics) - set(model_panics))))
 
+    log('[C02] derived-receiver probes: %d in %.1fs' % (len(dprobes), time.time() - t0))
+    t0 = time.time()
     # ---- (b) ill-typed programs: oracle impl == S ----
     nprog = 500 if quick else 5000
     gen = ProgGen(rng)
@@ -841,7 +847,7 @@ def run(ctx):
                 pviol.append((s, bad, "release+safe"))
             elif r.output != d.output and "0x" not in "".join(r.output + d.output) and "clock" not in s:
                 ctx.notes.append("dev and release+safe builds print different lines for one generated program (C10's concern)")
-        rimpl = run_probe_groups(rbin, probes, 16)
+        rimpl = run_probe_groups(rbin, probes, 24)
         for p, m, r in zip(probes, model, rimpl):
             if r[0] in ("panic", "crash", "missing", "none"):
                 pviol.append((PRELUDE + p.snippet(0), "%s %s" % (r[0], r[2]), "release+safe"))
@@ -857,6 +863,8 @@ def run(ctx):
         for s, bad, where in pviol[1:4]:
             ctx.violation("a compilable program does not end in Ok or Err(Error) (%s build): %s" % (where, bad), input=s, expected="Ok or Err(Error)", actual=bad)
 
+    log('[C02] programs: %d x %d builds in %.1fs' % (len(progs), len(builds), time.time() - t0))
+    t0 = time.time()
     # ---- (c) directed probes of the known classes ----
     findings = []
     krecs = yvlib.run_harness(binary, ["run - " + hx(w) for _, _, w, _ in KNOWN], quarantine=True, case_timeout_ms=8000)
@@ -880,6 +888,8 @@ def run(ctx):
         findings.append(known_entry("derive_native_receiver", "%d natives panic (expect) when a user class derives from their native-object class: %s" % (
             len(seen_panics), ", ".join(seen_panics)), "#[constructor(new), derive(Vec)] class M {} M.new().len();", "core.rs: every try_as_obj_*().expect on the receiver; vm.rs inherit_impl"))
 
+    log('[C02] directed probes in %.1fs' % (time.time() - t0))
+    t0 = time.time()
     # ---- (d) kind-dependent VM sites of compiled code ----
     site_srcs = progs[:60 if quick else 600] + [PRELUDE + DERIVE_PRELUDE, PROG_PRELUDE]
     tdir = os.path.join(yvlib.REPO, "yarel", "tests", "scripts")
@@ -894,6 +904,7 @@ def run(ctx):
             site_srcs.append(fh.read())
     fns, sites, rejected = check_sites(ctx, binary, site_srcs, "sites")
 
+    log('[C02] site check: %d functions in %.1fs' % (fns, time.time() - t0))
     ncalls = len(probes) + len(dprobes)
     ctx.cov.update({
         "evaluations": ncalls + len(progs) * len(builds) + len(KNOWN) + (len(probes) if not quick else 0),
